@@ -93,6 +93,16 @@ def main():
         if hist.exists():
             lines += ["", hist.read_text().strip()]
     lines.append("")
+    # ---- deepening / strengthening reports of round 3 (written by the builders, one file per property)
+    reps = sorted((V / "tools" / "claims.d").glob("*.deepen.md"))
+    if reps:
+        lines += ["### 11.9 Round-3 reports per property (collected from tools/claims.d/*.deepen.md)", ""]
+        for q in reps:
+            pid = q.name.split(".")[0]
+            body = q.read_text().strip()
+            # demote the report's own headings below this section
+            body = re.sub(r"^(#+) ", lambda m: "#" * min(6, len(m.group(1)) + 3) + " ", body, flags=re.M)
+            lines += [f"#### {pid}", "", body, ""]
     d = (V / "DESIGN.md").read_text()
     block = "<!-- BEGIN GENERATED -->\n" + "\n".join(lines) + "\n<!-- END GENERATED -->"
     if "<!-- BEGIN GENERATED -->" in d:
